@@ -54,6 +54,9 @@ void h_node_create(void) {
   COVER(n != 0); COVER(n != 0 && length == MAXLEN); COVER(n != 0 && length == 0);
   COVER(n == 0 && length <= MAXLEN); COVER(length == MAXLEN + 1); COVER(length == (size_t)-1);
   CHECK(g_dealloc_calls == 0 && g_realloc_calls == 0, "create only ever calls allocate");
+  /* C19 'reference counts never wrap': a string has at most one reference per slot that uses it (every increment is paired
+   * with a slot, F24), so the counter must be able to count every slot id of the configuration */
+  CHECK(sizeof(((Node *)0)->references) >= ARDUINOJSON_SLOT_ID_SIZE, "C19: the reference counter is at least as wide as a slot id (it can count one reference per slot)");
   if (length > MAXLEN) {
     CHECK(n == 0, "C19: a length above maxLength is refused");
     CHECK(g_alloc_calls == 0, "C06: the length cap is checked BEFORE the allocator is asked (memory bound)");
